@@ -317,4 +317,6 @@ def run(ctx, rep):
             n += 1
     rep.floor("R02i", "trace obligations on environment cells", n, 8)
     C01.r01n(ctx, rep, rule="R02g", only=("find_free_symbols_in_template",))
+    C01.r01q(ctx, rep, rule="R02k")
+    rep.rules["R02k"] = "a definition in a body binds in that body, also when a begin delivers it: " + rep.rules["R02k"]
     rep.not_decided += ["a wrong slot number or capture distance", "values denoted by references in concrete programs"]
